@@ -158,22 +158,28 @@ def run(chk, opts):
         high = len(c["shape"]) >= 7           # the 2 x 2 x ... x 2 family: 512+ entries, wide dtypes only
         full = (thorough or k % 7 == 0 or len(c["shape"]) <= 2) and not high
         dts = ["float64", "int64", "int32", "complex128"][: 2 + k % 3] if high else DTYPES if full else ["float64", DTYPES[k % len(DTYPES)], DTYPES[(k * 5 + 3) % len(DTYPES)]]
-        forms = sorted(INTFORMS) if full else [sorted(INTFORMS)[k % len(INTFORMS)]]
+        # (thorough: one rotating form per configuration -- all four on every one of ~800 k configurations exhausts memory)
+        forms = sorted(INTFORMS) if (full and not thorough) else [sorted(INTFORMS)[k % len(INTFORMS)]]
         cases.append({"id": "C01/%06d" % k, "cfg": c, "dtypes": sorted(set(dts)), "layouts": full or (high and k % 3 == 0), "intforms": forms,
                       "bool": full and int(np.prod(c["shape"])) <= 36})
     chk.add_cases(cases)
-    events = execute_cases(execute, cases, repo=chk.repo)
     chk.rule = ("all %d configurations of TensorIndex.AllConfigs (exported from TLC's design run: every shape with order<=%s, every op/mode/"
-                "skip/ravel/row-column ordering), each on the label tensor in several dtypes and layouts; distinct = distinct configurations"
-                % (len(cfgs), "5" if thorough else "4"))
-    for e in events:
-        if "cfg" in e:
-            chk.distinct.add(str(e["cfg"]))
-    for e in events[len(events) // 2: len(events) // 2 + 2]:
-        chk.sample(e)
-    for rid, clause, _ in chk.validate("TensorIndexTrace", events):
-        ev = next((e for e in events if e.get("id") == rid), None)
-        rec = chk.violation(rid, clause, event=ev)
+                "skip/ravel/row-column ordering, plus the all-twos tensors of order 9+), each on the label tensor in several dtypes, layouts and "
+                "integer-argument forms; distinct = distinct configurations" % (len(cfgs), "5" if thorough else "4"))
+    # executed and validated in batches: the thorough tier's ~800 k events do not fit in memory at once (16 TLC processes + the event lists)
+    BATCH = 150000
+    for b0 in range(0, len(cases), BATCH):
+        events = execute_cases(execute, cases[b0:b0 + BATCH], repo=chk.repo)
+        for e in events:
+            if "cfg" in e:
+                chk.distinct.add(str(e["cfg"]))
+        if b0 == 0:
+            for e in events[len(events) // 2: len(events) // 2 + 2]:
+                chk.sample(e)
+        by_id = {e.get("id"): e for e in events}
+        for rid, clause, _ in chk.validate("TensorIndexTrace", events):
+            chk.violation(rid, clause, event=by_id.get(rid))
+        del events, by_id
     chk.exhaustive = len(chk.distinct) == len(cfgs) and not chk.machinery
     chk.assumptions += ["NumPy backend only", "label tensors decide data-oblivious permutations for every value assignment of the same shape"]
 
